@@ -27,6 +27,8 @@ use crate::types::{
 
 enum CachedLogSafety {
     Uncomputed,
+    // The type is currently being evaluated, at the given recursion depth.
+    InProgress(usize),
     Computed(Option<LogSafety>),
 }
 
@@ -43,6 +45,10 @@ pub struct Context {
     serialize_empty_collections: bool,
     strip_prefix: Vec<String>,
     version: Option<String>,
+    // The number of types whose log safety is currently being evaluated.
+    log_safety_depth: Cell<usize>,
+    // The shallowest in-progress type the current log safety evaluation has relied on.
+    log_safety_cycle: Cell<usize>,
 }
 
 impl Context {
@@ -59,6 +65,8 @@ impl Context {
             serialize_empty_collections,
             strip_prefix: vec![],
             version: version.map(str::to_owned),
+            log_safety_depth: Cell::new(0),
+            log_safety_cycle: Cell::new(usize::MAX),
         };
 
         if let Some(strip_prefix) = strip_prefix {
@@ -1032,12 +1040,21 @@ impl Context {
     fn type_log_safety_ref(&self, name: &TypeName) -> Option<LogSafety> {
         let ctx = &self.types[name];
 
-        if let CachedLogSafety::Computed(safety) = &*ctx.log_safety.borrow() {
-            return safety.clone();
+        match &*ctx.log_safety.borrow() {
+            CachedLogSafety::Computed(safety) => return safety.clone(),
+            // temporarily treat it as safe in case of recursive type definitions.
+            CachedLogSafety::InProgress(depth) => {
+                self.log_safety_cycle
+                    .set(self.log_safety_cycle.get().min(*depth));
+                return Some(LogSafety::Safe);
+            }
+            CachedLogSafety::Uncomputed => {}
         }
 
-        // temporarily treat it as safe in case of recursive type definitions.
-        *ctx.log_safety.borrow_mut() = CachedLogSafety::Computed(Some(LogSafety::Safe));
+        let depth = self.log_safety_depth.get();
+        self.log_safety_depth.set(depth + 1);
+        let outer_cycle = self.log_safety_cycle.replace(usize::MAX);
+        *ctx.log_safety.borrow_mut() = CachedLogSafety::InProgress(depth);
 
         let safety = match &ctx.def {
             TypeDefinition::Alias(alias) => alias
@@ -1070,7 +1087,19 @@ impl Context {
                 .fold(None, |a, b| self.combine_safety(a, b)),
         };
 
-        *ctx.log_safety.borrow_mut() = CachedLogSafety::Computed(safety.clone());
+        // A safe result that assumed an enclosing type still being evaluated is safe is only
+        // valid within that evaluation, so it must not be cached.
+        let cycle = self.log_safety_cycle.get();
+        let provisional = safety == Some(LogSafety::Safe) && cycle < depth;
+        *ctx.log_safety.borrow_mut() = if provisional {
+            CachedLogSafety::Uncomputed
+        } else {
+            CachedLogSafety::Computed(safety.clone())
+        };
+        self.log_safety_depth.set(depth);
+        self.log_safety_cycle
+            .set(outer_cycle.min(if cycle < depth { cycle } else { usize::MAX }));
+
         safety
     }
 
